@@ -46,7 +46,9 @@ CFG = dict(
           "gated / free-running) x 5-6 consumer kinds (absent until Close, fast, slow one-at-a-time with abandoned receives, late, and the "
           "forced schedule 'first update delivered, then busy until Close' confirmed by observation); for the gated kinds also the "
           "consumer that receives the last update, stays busy and polls Size() from its own goroutine while Close() is pending before it "
-          "receives again; one run (thorough: two) with a consumer arriving 1.5 s (6 s) after Close() was called, beside the sweep; "
+          "receives again (only when the consumer has received the last call's update, so that the poll is ordered after the writer's "
+          "last change of the total); rounds of 100000 one-byte writes by a free-running writer against a consumer receiving as fast "
+          "as it can (about 2 s, thorough 20 s); one run (thorough: two) with a consumer arriving 1.5 s (6 s) after Close() was called, beside the sweep; "
           "plus seeded random scripts of 1-40 calls with counts up to 65535; non-trivial = distinct case lines "
           "(script + observed sizes + received sequence)"),
     trusted_base=[HARNESS_TB, EXTRACT_TB,
@@ -59,6 +61,12 @@ CFG = dict(
                  "Close is called once, after the last write; a consumer is receiving when Close is called (documented contract, "
                  "theorem C19_close_needs_receiver)",
                  "one consumer at a time receives from Status()",
+                 "received sequences are judged by the property's clauses only (non-decreasing, each a Size() after some completed "
+                 "call, the last one the final total, then closed); a history that satisfies them but is not a run of the rendezvous "
+                 "model (a buffering implementation) is counted as DRIFT, never an alarm",
+                 "every wait of the harness is bounded; an expired wait is an outcome (scenario not reached, "
+                 "input_distribution.runs_abandoned_*), a violation only where the property says 'never blocks' (Write) or demands "
+                 "the final total and the close",
                  "the values Write/WriteString RETURN (n, err handed through from the wrapped writer) are outside the property text: "
                  "the harness only counts deviations (input_distribution.return_value_not_passed_through), it never alarms on them",
                  "a zero-length call that is answered without asking the wrapped writer is accepted (it contributes 0 either way); "
